@@ -16,7 +16,7 @@ func init() {
 		Real: []string{"consensus.ConsensusState (real receiveRoutine, handlers, vote sets)", "consensus.ConsensusReactor.Receive + PeerState", "types.FilePV on a real file", "consensus WAL (real baseWAL when configured)", "app.LinkApplication", "mempool", "blockchain.BlockStore", "utxo store", "evidence pool", "BlockExecutor/validateBlock", "StateDB/trie/kv"},
 		Stub: []string{"timeout ticker (simulator-controlled VerifTicker; same replace-if-later rule)", "gossip routines (anti-entropy stand-in reading the peer's real round state)", "p2p switch/connections (message-level simulated network)", "storage engine (SimDB)", "libxcrypto (pure-Go model)"},
 		Assumptions: []string{"Go 1.26.8 testing/synctest virtual clock", "validator set static during a run", "I4 (prevote against lock) is evaluated within one incarnation of a node"},
-		QuickRuns: 160, QuickBudget: 75 * time.Second, ThoroughRuns: 6000, ThoroughBudget: 25 * time.Minute,
+		QuickRuns: 500, QuickBudget: 75 * time.Second, ThoroughRuns: 6000, ThoroughBudget: 25 * time.Minute,
 		RunsPerProcess: 40, RunTimeout: 600 * time.Second,
 		Run: func(c *kernel.Ctx) { cluster.RunMode(c, cluster.ModeAgreement) },
 	})
